@@ -24,6 +24,10 @@ history = {
  'C01e':'frozen-other','C02e':'frozen','C03e':'frozen','C04e':'frozen-other','C05e':'after','C06e':'frozen','C07e':'frozen-other','C08e':'frozen',
  'C09e':'frozen-other','C10e':'frozen','C11e':'frozen','C13e':'frozen','C14e':'after','C15e':'frozen','C16e':'frozen','C17e':'frozen-other',
  'C18e':'frozen','C19e':'frozen','C20e':'after',
+ # round f: rules frozen at tag rules-frozen-before-round-g; first run in refs/round_f_first_run.txt
+ 'C01f':'frozen','C02f':'frozen-other','C03f':'frozen-other','C04f':'after','C05f':'frozen','C06f':'frozen-other','C07f':'after','C08f':'after',
+ 'C09f':'after','C10f':'after','C11f':'frozen-other','C13f':'after','C14f':'frozen','C15f':'frozen','C16f':'frozen','C17f':'frozen-other',
+ 'C18f':'after','C19f':'frozen-other','C20f':'after',
 }
 seeds = sys.argv[1:] or sorted(d for d in os.listdir('seeded') if os.path.isdir('seeded/'+d))
 out = subprocess.run(['tools/run_seeds.sh'] + seeds, capture_output=True, text=True).stdout
